@@ -1264,6 +1264,10 @@ class Interp:
         e2 = dict(env)
         self.bind_loop(g.target, it, e2)
         body = self.ev(node.elt, e2, stack)
+        for k, v in e2.items():
+            if k.startswith("<cell:") and k not in env:
+                env[k] = v
+        env["<trace>"] = e2["<trace>"]
         if g.ifs:
             body = Alt(" and ".join(src(i, 4000) for i in g.ifs), body, Seq(),
                        node.lineno)
